@@ -801,6 +801,23 @@ class ZoneFn:
             return None
         bi, t = origin
         cal = t.get('callee') or ''
+        # component of the element of a zipped iteration: `for (a, b) in xs.iter().zip(ys)`
+        tup = [p for p in pl['p'] if p['k'] == 'field' and not str(p.get('adt', '')).startswith(('std::option', 'core::option')) and p['n'].isdigit()]
+        if cal == 'std::iter::Iterator::next' and tup and t['args']:
+            comps = self.iter_components(t['args'][0])
+            n = int(tup[0]['n'])
+            if comps and len(comps) > 1 and n < len(comps):
+                key = ('payload', l, n)
+                if key in self._term:
+                    return self._term[key]
+                res = None
+                es = self.elem_sym_of_desc(comps[n]) if comps[n] is not None else None
+                if es is not None:
+                    res = ('v%de%d' % (l, n), 0)
+                    self.global_facts.append((('payload', l), res, (es, 0)))
+                    self.elem_of[res[0]] = es
+                self._term[key] = res
+                return res
         key = ('payload', l)
         if key in self._term:
             return self._term[key]
